@@ -35,18 +35,18 @@ PROPS = {
     'C01': dict(k2=[('walk', {'res', 'holder'})], k1=['verdict', 'struct']),
     'C02': dict(k2=[], k1=['struct'], k3=['methods']),
     'C03': dict(k1s=True, k2=[('guards', {'res', 'trace'})], k1=[]),
-    'C04': dict(k1s=True, k2=[('walk', {'res', 'trace'}), ('async', {'res', 'trace'})], k1=[]),
+    'C04': dict(k1s=True, k2=[('walk', {'res', 'trace'}), ('async', {'res', 'trace'})], k1=[], k3=['types']),
     'C05': dict(k1s=True, k2=[('refuse', {'res', 'trace', 'holder'})], k1=[]),
-    'C06': dict(k1s=True, k2=[('around', {'res', 'trace', 'holder'})], k1=[]),
+    'C06': dict(k1s=True, k2=[('around', {'res', 'trace', 'holder'})], k1=[], k4=True),
     'C07': dict(k2=[('walk', {'res', 'holder'})], k1=['verdict', 'struct', 'forest'], k3=['substate']),
-    'C08': dict(k1s=True, k2=[('data', {'res', 'trace', 'holder'}), ('walk', {'holder', 'trace'})], k1=[]),
+    'C08': dict(k1s=True, k2=[('data', {'res', 'trace', 'holder'}), ('walk', {'holder', 'trace'})], k1=[], k3=['types']),
     'C09': dict(k2=[('pair', ALL)], k1=[], direct=['pair']),
-    'C10': dict(k2=[('conv', {'res', 'holder', 'c'})], k1=[]),
-    'C11': dict(k2=[('data', {'res', 'holder'})], k1=[]),
+    'C10': dict(names=True, k2=[('conv', {'res', 'holder', 'c'})], k1=[], k3=['types']),
+    'C11': dict(names=True, k2=[('data', {'res', 'holder'}), ('abandon', {'res', 'holder'})], k1=[]),
     'C12': dict(names=True, k2=[('guards', {'res'}), ('around', {'res'}), ('walk', {'res'})], k1=[], k4=True),
     'C13': dict(k2=[], k1=['verdict', 'mutants'], k3=['reject']),
     'C14': dict(names=True, k2=[], k1=['verdict', 'struct'], k3=['compile']),
-    'C15': dict(k1s=True, k2=[('async', ALL)], k1=[], direct=['twin'], k3=['send']),
+    'C15': dict(k1s=True, k2=[('async', ALL)], k1=[], direct=['twin'], k3=['send', 'types']),
     'C16': dict(k1s=True, k2=[('walk', {'c', 'p', 'trace'}), ('refuse', {'c', 'p', 'trace'}), ('conv', {'c', 'p'}),
                               ('abandon', {'c', 'p'}), ('around', {'c', 'p'})], k1=[]),
     'C17': dict(k2=[], k1=['struct'], k3=['nostd']),
